@@ -601,4 +601,46 @@ example (k : StreamKind) (isLazy : Bool) :
 example : Spec.tableEntry (encOf exImg) 4 (secFileBytes exImg 7) 2 = some 0xdeadbeef ∧
     Spec.tableEntry (encOf exImg) 4 (secFileBytes exImg 7) 3 = none := by decide +kernel
 
+/-! ### 2g. symbol-version indices (C14: `.gnu.version`) -/
+
+/-- **versym_reports_spec** : for a file-occupying section `i` that is a whole number (< 2^32) of `Elf_Half`
+    entries, `versym_section_accessor(sections[i]).get_entry(k, value)` on the loaded object is, for EVERY 32-bit
+    `k`, the `k`-th half-word of the section's file bytes, and false at and beyond `sh_size / 2` — PROVIDED the
+    file's byte order is the host's (`hhost`).  That hypothesis cannot be discharged from `WellFormedImage`: the
+    accessor has no convertor (open finding F4, `C14.versym_read_witness`: a big-endian file is read
+    byte-swapped on this host). -/
+theorem versym_reports_spec (img : Bytes) (hwf : WellFormedImage img) (o : Obj) (hL : LoadedFrom img o) (i : Nat)
+    (hi : i < eh img "e_shnum") (hocc : occupiesFile (sh img i "sh_type") = true)
+    (hwhole : sh img i "sh_size" % 2 = 0) (h32 : sh img i "sh_size" / 2 < 4294967296)
+    (hhost : encOf img = C14.hostEnc) (k : BitVec 32) :
+    ∃ o1 b1, secResident o i = some (o1, b1) ∧ LoadedFrom img o1 ∧
+      Versym.getEntry b1 (Versym.mk b1) k =
+        .ok ((Spec.tableEntry (encOf img) 2 (secFileBytes img i) k.toNat).map (BitVec.ofNat 16)) := by
+  obtain ⟨o1, b1, h1, hL1, hR1, _⟩ := secResident_ready img hwf o hL i hi
+  obtain ⟨hinv, hcont⟩ := hR1.inv hocc
+  have hlen := hR1.fileBytes_length hwf hi hocc
+  have henc := encode_decodeArr (encOf img) 2 (by decide) (secFileBytes img i) (by rw [hlen]; exact hwhole)
+  have hmk : (Versym.mk b1).toNat = (decodeArr (encOf img) 2 (secFileBytes img i)).length := by
+    simp only [Versym.mk, vs_ctor_guard, if_true, vs_count, BitVec.toNat_setWidth, BitVec.toNat_udiv,
+      BitVec.toNat_ofNat, Nat.reducePow, Nat.reduceMod, decodeArr, List.length_map, List.length_range, hlen,
+      hR1.size]
+    omega
+  have hg := C14.versym_get b1 hinv (Versym.mk b1) (decodeArr (encOf img) 2 (secFileBytes img i))
+    (by rw [hcont, ← hhost, henc]) hmk k
+  refine ⟨o1, b1, h1, hL1, ?_⟩
+  rw [hg, ← decodeArr_get (encOf img) 2 (by decide) _ (by rw [hlen]; exact hwhole)]
+  split <;> rfl
+
+example (k : StreamKind) (isLazy : Bool) :
+    ∃ r : LoadRes, load {} { data := exImg, kind := k } isLazy = .ok r ∧
+      ∀ idx : BitVec 32, ∃ o1 b1, secResident r.obj 8 = some (o1, b1) ∧ Versym.getEntry b1 (Versym.mk b1) idx =
+        .ok ((Spec.tableEntry (encOf exImg) 2 (secFileBytes exImg 8) idx.toNat).map (BitVec.ofNat 16)) := by
+  obtain ⟨r, h1, _, h3⟩ := of_load exImg {} k isLazy rfl exImg_wf
+  refine ⟨r, h1, fun idx => ?_⟩
+  obtain ⟨o1, b1, g1, _, g2⟩ := versym_reports_spec exImg exImg_wf r.obj h3 8 (by decide +kernel) (by decide +kernel)
+    (by decide +kernel) (by decide +kernel) (by decide +kernel) idx
+  exact ⟨o1, b1, g1, g2⟩
+example : Spec.tableEntry (encOf exImg) 2 (secFileBytes exImg 8) 2 = some 0x8002 ∧
+    Spec.tableEntry (encOf exImg) 2 (secFileBytes exImg 8) 3 = none := by decide +kernel
+
 end ElfioVerif.ComposeTables
